@@ -3,6 +3,7 @@
   Property theorems only.  (Model/Syntax's parser is a total Lean function by construction:
   structural recursion on explicit fuel; `OutOfFuel` is an ordinary reported error.)
 -/
+import NextestModel.Lemmas.Spans
 import NextestModel.Model.Syntax
 import NextestModel.Lemmas.StringRoundTrip
 import NextestModel.Gen.Tables
@@ -244,5 +245,24 @@ theorem escape_table_matches_source :
     (∀ p ∈ Gen.escapeTable, parseEscapeBody [Char.ofNat p.1] = some (Char.ofNat p.2, [])) ∧
     (∀ n : Fin 128, (parseEscapeBody [Char.ofNat n.val]).isSome = (Gen.escapeTable.map (·.1)).contains n.val) := by
   refine ⟨by decide, by decide +kernel⟩
+
+/-! ## Totality and error spans -/
+
+/-- **parsing terminates on every string with either an expression or a list of errors**: `parseFilterset` is a total function
+    (Lean's termination checker accepted the fuelled definition; `fuelFor` suffices for every input, which the correspondence
+    checks by never observing the `outOfFuel` error kind) — and **every reported error span lies within the input**:
+    `offset + length ≤` the input's length in bytes, for every input string and every regex/glob validity oracle. -/
+theorem spans_in_input (input : List Char) (rv gv : List (List Char × Bool)) (errs : List PErr)
+    (h : parseFilterset input rv gv = .error errs) : ∀ e ∈ errs, e.off + e.len ≤ utf8Len input := by
+  unfold parseFilterset at h
+  simp only at h
+  split at h
+  · cases h
+  · simp only [Except.error.injEq] at h; subst h
+    exact parseTop_spans input rv gv
+
+-- non-vacuity: an input that ends right after a backslash (the escape error's span is clamped to what remains: nothing)
+example : (match parseFilterset "test(foo\\".toList [] [] with | .error es => es | .ok _ => []) =
+    [⟨.invalidEscape, 8, 0⟩, ⟨.expectedCloseParen, 9, 0⟩] := by decide
 
 end NextestModel.C20
